@@ -29,8 +29,12 @@ def golden():
 # ------------------------------------------------------------------ 5.3.1
 def expand_message_xmd(msg, dst, len_in_bytes, hname="sha256"):
     """RFC 9380 5.3.1; raises ValueError where the RFC says ABORT"""
-    H = lambda b: hashlib.new(hname, b).digest()  # noqa: E731
-    probe = hashlib.new(hname)
+    if callable(hname):  # a hash constructor with its parameters baked in (e.g. a partial of blake2b)
+        H = lambda b: hname(b).digest()  # noqa: E731
+        probe = hname()
+    else:
+        H = lambda b: hashlib.new(hname, b).digest()  # noqa: E731
+        probe = hashlib.new(hname)
     b_in_bytes, s_in_bytes = probe.digest_size, probe.block_size
     ell = -(-len_in_bytes // b_in_bytes)
     if ell > 255 or len_in_bytes > 65535 or len(dst) > 255:
